@@ -141,6 +141,12 @@ THEOREMS = [
     ("reference_server_events_meaning",
      "forall (sc : sconfig) (t0 : N), (forall evs, snd (spec_server_events sc t0 evs) = loop_spec 0 evs) /\\ "
      "(forall cs, spec_server_events sc t0 (map conn_of cs) = (spec_server sc t0 cs, Running))"),
+    ("server_bystander_always_served",
+     "forall (checked : bool) (sc : sconfig) (t0 : N) (evs1 : list conn_event) (b t : N) (reqs : list N) (evs2 : list conn_event), "
+     "fits (ev_calls_bound (evs1 ++ Conn b t reqs :: evs2)) -> loop_spec 0 evs1 = Running -> "
+     "ev_calls_of b evs1 + 1 + N.of_nat (length reqs) <= min_max sc -> "
+     "nth_error (fst (accept_loop checked sc t0 (evs1 ++ Conn b t reqs :: evs2))) (length (filter is_conn evs1)) "
+     "= Some (Served (repeat Normal (length reqs)) false)"),
     ("concurrent_others_never_hurt",
      "forall (checked : bool) (cfg : config) (nsh : nat) (shard : N -> nat) (t0 : N) (progs : list (list N)) "
      "(sch : list (nat * N)) (l2 : list ret_entry) (i : nat) (b : N) (d : outcome action) (l1 : list ret_entry), "
@@ -1166,7 +1172,9 @@ LEVEL_TEXT = ("Machine-checked Coq theorems over a transcription of LimitManager
               "of accept events (connections with their requests, failed accept() calls, QUIC time-outs, shutdown requests, calls of other "
               "tasks on the shared limiters) what every connection receives and how the loop ends equal the reference server: answers come "
               "from the reference counter(s) alone until a shutdown request or the 101st consecutive accept error, everybody is refused "
-              "afterwards, and the loop ends in no other way - no address, request count, verdict or configuration occurs in that; the same "
+              "afterwards, and the loop ends in no other way - no address, request count, verdict or configuration occurs in that; a client whose "
+              "calls so far (its connection and requests included) are at most the smaller configured maximum is accepted and answered "
+              "normally every time, whatever anybody did before; the same "
               "for collections of several hosts (one counter set per host, the pre-host limiter sharing the first host's) with requests for "
               "unknown hosts (409, closed, no limiter asked). Concurrent calls (small-step model, one transition per access to shared memory, "
               "any number of threads, EVERY interleaving, any clock readings): no call panics; a call of an address is never answered more "
